@@ -101,6 +101,11 @@ pub fn check(c: &Case) -> Outcome {
     if std::env::var_os("VF_DEBUG").is_some() {
         eprintln!("C03-DEBUG status {:?} nfev {} nstep {} naccpt {} nrejct {}\n t = {:?}\n y = {:?}\n step ends = {:?}", sol.status, sol.nfev, sol.nstep, sol.naccpt, sol.nrejct, sol.t, sol.y, log.ev_t);
     }
+    if c.method == Meth::RK4 && !sol.y.iter().all(|y| all_finite(y)) {
+        // fixed-step RK4 has no error control: once the (faulty or unstable) right-hand side has produced
+        // non-finite states, event functions and interpolants are NaN and nothing more is claimed (C04: it terminates)
+        return Outcome::triv("rk4-non-finite-states");
+    }
     let tslack = |t: f64| tau(x0, xend, t);
     let desc = format!("{} {}", c.method.name(), status_name(sol.status));
 
@@ -133,7 +138,12 @@ pub fn check(c: &Case) -> Outcome {
         // that sample as the final entry: same time, same state
         // (the state is the previous one up to the rounding of the interpolant evaluated at that time)
         if k + 2 == m && sol.status == Status::UserInterrupt && w[1] == w[0] {
-            let close = sol.y[k].iter().zip(&sol.y[k + 1]).all(|(a, b)| (a - b).abs() <= 1e-10 * (1.0 + a.abs()));
+            // (a root within the root finder's time tolerance of the step end is located "at" it: same time after
+            // rounding, state different by at most |f| * xtol)
+            let mut fk = vec![0.0; n];
+            crate::instr::Rhs::f(&prob, w[0], &sol.y[k], &mut fk);
+            let slack = 4.0 * inf_norm(&fk) * (2e-12 + 4.0 * f64::EPSILON * w[0].abs());
+            let close = sol.y[k].iter().zip(&sol.y[k + 1]).all(|(a, b)| (a - b).abs() <= 1e-10 * (1.0 + a.abs()) + slack);
             if close {
                 dup_ok = true;
             }
@@ -290,7 +300,7 @@ pub fn strategy() -> BoxedStrategy<Case> {
         max_step.clone(),
         proptest::option::weighted(0.4, t_eval_fracs(12)),
         any::<bool>(),
-        proptest::collection::vec(event_spec(4, false), 0..=2),
+        proptest::collection::vec(prop_oneof![3 => event_spec(4, false).boxed(), 1 => event_spec(4, true).boxed()], 0..=2),
         proptest::option::weighted(0.25, 1usize..60),
         proptest::option::weighted(0.08, prop_oneof![
             3 => (fr(0.05, 0.98), 0u8..3).prop_map(|(at, v)| Fault::From { at, v }),
